@@ -13,6 +13,7 @@ import QV.Drive.C15
 import QV.Drive.C10
 import QV.Drive.C07
 import QV.Drive.C12
+import QV.Drive.C08
 /-! `qvdriver`: one JSON request per input line, one JSON reply per output line. -/
 open Lean
 
@@ -32,7 +33,8 @@ def dispatch (j : Json) : Except String Json := do
     QV.Drive.C15.handle,
     QV.Drive.C10.handle,
     QV.Drive.C07.handle,
-    QV.Drive.C12.handle
+    QV.Drive.C12.handle,
+    QV.Drive.C08.handle
   ]
   for h in handlers do
     if let some r := h op j then return ← r
